@@ -9,7 +9,8 @@ import cases as C  # noqa
 import corr  # noqa
 from lib import f32, f2h, h2f  # noqa
 
-MODULES = ["InovesaModel.Props.C04", "InovesaModel.Props.C01FP", "InovesaModel.Props.TieMain", "InovesaModel.Props.TieRuler", "InovesaModel.Props.TiePhysics"]
+MODULES = ["InovesaModel.Props.C04", "InovesaModel.Props.C01FP", "InovesaModel.Props.TieMain", "InovesaModel.Props.TieRuler", "InovesaModel.Props.TiePhysics",
+           "InovesaModel.Props.TieMoments"]     # the reported length and spread are what PhaseSpace::variance computes
 LEVEL = "proof"
 U = 2.0 ** -24
 
@@ -243,6 +244,41 @@ def run(chk):
                 fails = fails + [(recs[0], f)]
                 break
     chk.cov["program_train_runs"] = 1 if quick else 3
+    # whole program: the limit does not depend on the initial size, also when the start is so wide that part of the
+    # charge leaves the grid before the bunch has relaxed (length and spread are moments per unit of the charge PRESENT)
+    pairs = 0
+    for _ in range(1 if quick else 3):
+        steps = prng.choice([100, 150])
+        tdp = prng.choice([2.5, 3.0])
+        dtn = prng.choice([3, 4])
+        n = prng.choice([48, 64])
+        ends = {}
+        for zoom in (0.6, prng.choice([2.2, 2.6, 3.0])):
+            a = list(prog.BASE_ARGS) + ["-s", str(n), "-N", str(steps), "-T", str(int(9 * tdp)), "-n", str(steps), "-G", "0",
+                                        "-d", repr(tdp / P.sync_freq_default()), "--InitialDistZoom", repr(zoom),
+                                        "--derivation", str(dtn), "-o", "a.h5"]
+            d = prog.scratch()
+            try:
+                r = prog.run_inovesa(exe, a, d)
+                if r.rc != 0:
+                    chk.violation("C04: program run failed: " + (r.err or r.out)[-200:], "inovesa %s\n" % " ".join(a), tag="program")
+                    continue
+                D = prog.dump(h5, os.path.join(d, "a.h5"))
+            finally:
+                shutil.rmtree(d, ignore_errors=True)
+            ends[zoom] = (prog.fvals(D["dsets"]["/BunchLength/data"])[-1], prog.fvals(D["dsets"]["/EnergySpread/data"])[-1], a)
+        if len(ends) == 2:
+            pairs += 1
+            (z1, e1_), (z2, e2_) = sorted(ends.items())
+            for name, v1, v2 in (("bunch length", e1_[0], e2_[0]), ("energy spread", e1_[1], e2_[1])):
+                if not abs(v1 - v2) <= 4e-3:
+                    f = ("program without impedance: after 9 damping times the %s is %.5f from a start of %.1f natural sizes and "
+                         "%.5f from a start of %.1f natural sizes - the limit depends on the initial distribution" % (name, v1, z1, v2, z2))
+                    chk.violation("C04 violated: " + f, "# C04: %s\ninovesa %s\n# versus\ninovesa %s\n" % (
+                        f, " ".join(e1_[2]), " ".join(e2_[2])), tag="program_start")
+                    fails = fails + [(recs[0], f)]
+                    break
+    chk.cov["program_start_independence_pairs"] = pairs
     if san:
         chk.violation("sanitizer/abort in the implementation: " + san[:300],
                       "# harness aborted\n" + san + "\n" + "".join(optexts.values())[:200000], tag="sanitizer")
